@@ -976,7 +976,8 @@ func (vm *VM) handleThrownError(frame *frame, err *RuntimeError) error {
 		vm.ip = handler.finally - 1
 	} else {
 		frame.errHandlers.pop()
-		return vm.throw(err, false)
+		// position of this frame is already in the trace
+		return vm.throw(err, true)
 	}
 
 	if vm.sp >= handler.sp {
